@@ -30,7 +30,8 @@ from .pyz import Unsupported, cname, find
 
 COQTY = dict(pyz.COQTY)
 COQTY.update({
-    "PARAMS": "list Z",
+    "PARAMS": "list Z", "PRESENT": "unit", "ABSENT": "unit", "Y": "Z", "SKSPLIT":
+    "Z -> option Z -> option Z -> res (list Z * list Z)",
     "S": "series", "OS": "option series", "LS": "list series", "IX": "ixdesc", "K": "ixkind",
     "OK": "option ixkind", "KS": "list ixkind", "TYS": "list dtype_name", "CV": "cvdesc",
     "SC": "option bool", "STR": "string", "STRS": "list string", "NL": "list cname",
@@ -307,6 +308,8 @@ class TrX(pyz.Tr):
                 and test.comparators[0].value is None:
             t, ty = self.expr(test.left, env)
             neg = isinstance(test.ops[0], ast.IsNot)
+            if ty == "PRESENT":    # an optional argument the translation is specialised to "given"
+                return (then_k if neg else else_k)(env)
             if ty == "FCS":
                 a, ta = then_k(env)
                 b, tb = else_k(env)
@@ -359,6 +362,9 @@ class TrX(pyz.Tr):
         if not stmts:
             return self.finish(env)
         s, rest = stmts[0], stmts[1:]
+        if self.cfg.get("skip_stmts") and hasattr(s, "lineno") \
+                and ast.unparse(s) in self.cfg["skip_stmts"]:
+            return self.block(rest, env)
         if isinstance(s, ast.ImportFrom):
             if ast.unparse(s) in self.cfg.get("skip_imports", ()):
                 return self.block(rest, env)
@@ -477,6 +483,14 @@ class TrX(pyz.Tr):
                     b, tb = "(Some %s)" % b, "OS"
                 self.need(tb, "OS", s)
                 return "(Ok (%s, %s))" % (a, b), "RYX"
+            if self.kind == "rfun" and self.cfg.get("ret") == "P4" and isinstance(s.value, ast.Tuple) \
+                    and len(s.value.elts) == 4:
+                parts = []
+                for x in s.value.elts:
+                    t, ty = self.expr(x, env)
+                    self.need(ty, "L", s)
+                    parts.append(t)
+                return "(Ok ((%s, %s), (%s, %s)))" % tuple(parts), "RP4"
             if self.kind in ("fun", "rfun"):
                 t, ty = self.expr(s.value, env)
                 want = self.cfg.get("ret", "Z")
